@@ -96,7 +96,7 @@ Proof.
   all: unfold after_read, turn_start, hc_return, goio in *.
   all: repeat match goal with |- context [if ?b then _ else _] => destruct b eqn:? end.
   all: z_hyps; nat_hyps.
-  all: cbv [io_holds_o hc_locked io_uflush io_sc hc_is_sc orb] in Ho, Hfl.
+  all: cbv [io_holds_o hc_locked io_sc hc_is_sc orb] in Ho, Hfl.
   all: intros j q Hj; simpl in Hj.
   (* notify: nobody stays parked *)
   all: try (pose proof (notify_o_none_parked _ Huniq _ _ Hj) as Hnp;
@@ -125,7 +125,6 @@ Lemma inv4_step_w : forall c s i ch s' l,
 Proof.
   intros c s i ch s' l Hhw HI1 HI2 HI3 HI4 H Ht. unfold step_w in H.
   destruct (getw s i) as [pc|] eqn:Hg; [|discriminate]. unfold getw in Hg.
-  assert (Hsc : w_sc pc = false) by (destruct (i1_w _ HI1 _ _ Hg) as (_ & _ & Hx); exact Hx).
   pose proof (HI4 _ _ Hg) as Hi4.
   destruct (worker_facts s i pc HI1 HI2 Hg) as (Hlk & Hmn).
   pose proof (i1_io_o _ HI1) as Ho.
@@ -133,7 +132,12 @@ Proof.
   assert (Hoth : w_busy pc = true -> forall j p, j <> i -> nth_error (ws s) j = Some p -> w_main p = false).
   { intros Hb j p Hn Hj. destruct (busy_exclusive s i pc (i2_tok _ HI2) Hg Hb) as (_ & _ & _ & Hx).
     specialize (Hx _ _ Hn Hj). unfold w_busy in Hx. apply orb_false_iff in Hx. tauto. }
-  step_cases H; free_hyps; simpl in Hsc; try discriminate Hsc.
+  (* ... nor while it sends a deferred 100 Continue: requests is empty then *)
+  assert (Hoth2 : w_sc pc = true -> forall j p, nth_error (ws s) j = Some p -> w_main p = false).
+  { intros Hb j p Hj. destruct (i2_sc _ HI2 _ _ Hg) as (Hn0 & _). specialize (Hn0 Hb).
+    destruct (w_main p) eqn:Em; auto. destruct (i2_w _ HI2 _ _ Hj) as (Hm & _). specialize (Hm Em). lia. }
+  step_cases H; free_hyps.
+  all: simpl in Ht; try discriminate Ht.
   all: unfold setw, hw_exit in *.
   all: repeat match goal with |- context [if ?b then _ else _] => destruct b eqn:? end.
   all: repeat match goal with |- context [match ?b with SWr _ => _ | SEnd => _ end] => destruct b eqn:? end.
@@ -144,6 +148,7 @@ Proof.
   (* the other workers *)
   all: try (try (apply ws_add_task_inv in Hj; destruct Hj as [->|Hj]; [exact I|]);
             first [ apply winv4_nonmain; apply (Hoth eq_refl _ _ Hne Hj)
+                  | apply winv4_nonmain; apply (Hoth2 eq_refl _ _ Hj)
                   | apply (winv4_mono c s _ q (HI4 _ _ Hj)); simpl;
                     try match goal with |- context [add_task ?x] =>
                       destruct (add_task_fields4 x) as (F1 & F2 & F3 & F4 & F5); rewrite ?F1, ?F2, ?F3, ?F4, ?F5 end;
